@@ -89,6 +89,9 @@ pub assume_specification [std::string::String::as_bytes] (s: &String) -> (r: &[u
 pub assume_specification<T: Clone> [<[T]>::to_vec] (s: &[T]) -> (r: Vec<T>)
     ensures r@ == s@;
 
+pub assume_specification [u8::is_ascii_digit] (b: &u8) -> (r: bool)
+    ensures r == (48 <= *b <= 57);
+
 // T14 / C07.prealloc: every `Vec::with_capacity(n)` of the extracted code is redirected here (rule
 // R-prealloc); the budget is a ghost value the contract of the enclosing function must define as a
 // number of input bytes actually present.
